@@ -50,6 +50,10 @@ var (
 
 	// ErrLocationsCount locations count is wrong
 	ErrLocationsCount = errors.New("locations count is not equal")
+	// ErrLocationsNegative a locations entry is negative
+	ErrLocationsNegative = errors.New("locations must not be negative")
+	// ErrLocationsEmpty locations list no sub table at all
+	ErrLocationsEmpty = errors.New("locations must contain at least one table")
 	// ErrInvalidMycatLocations mycat locations is wrong
 	ErrInvalidMycatLocations = errors.New("mycat locations must be all 1")
 	// ErrNoCriteria no shard condition
